@@ -18,6 +18,7 @@ from __future__ import annotations
 
 import builtins
 import re
+import signal
 import time
 from dataclasses import dataclass, field
 from typing import Any, Callable
@@ -37,6 +38,14 @@ class Inconclusive(BaseException):
 
 class PathLimit(BaseException):
     """Path budget exhausted."""
+
+
+class PathTimeout(BaseException):
+    """One path of the code under test did not return within the wall-clock limit; carries a model of the path so far."""
+
+    def __init__(self, msg: str, model: dict[str, int] | None = None):
+        super().__init__(msg)
+        self.model = model
 
 
 # ------------------------------------------------------------------------------------------
@@ -317,6 +326,7 @@ class Explorer:
     def __init__(self, timeout_ms: int = 20000, max_paths: int = 200000):
         self.timeout_ms = timeout_ms
         self.max_paths = max_paths
+        self.path_limit_s: float | None = None   # wall-clock limit for one path of the code under test (main thread only)
         self.stats = Stats()
         self.solver = z3.Solver()
         self.solver.set("timeout", timeout_ms)
@@ -502,6 +512,20 @@ class Explorer:
                 out[name] = 1 if z3.is_true(val) else 0
         return out
 
+    def _on_alarm(self, _sig: int, _frm: Any) -> None:
+        # the exploration of this case is abandoned (the trail may be mid-update); the decisions taken so far give a model
+        model = None
+        try:
+            s = z3.Solver()
+            s.set("timeout", 20000)
+            for c in list(self.pre) + list(self.pc):
+                s.add(c)
+            if s.check() == z3.sat:
+                model = self._model_dict(s.model())
+        except Exception:  # noqa: BLE001
+            model = None
+        raise PathTimeout(f"a path did not return within {self.path_limit_s:g} s", model)
+
     def current_model(self) -> dict[str, int]:
         if self.model is None:
             r = self._check()
@@ -541,7 +565,14 @@ class Explorer:
                 exc: BaseException | None = None
                 ret: Any = None
                 try:
-                    ret = fn(self)
+                    if self.path_limit_s:
+                        signal.signal(signal.SIGALRM, self._on_alarm)
+                        signal.setitimer(signal.ITIMER_REAL, self.path_limit_s)
+                    try:
+                        ret = fn(self)
+                    finally:
+                        if self.path_limit_s:
+                            signal.setitimer(signal.ITIMER_REAL, 0)
                 except Inconclusive as e:
                     self._path_inconclusive.append(str(e))
                 except (HarnessError, PathLimit, KeyboardInterrupt, SystemExit):
